@@ -51,7 +51,24 @@ func main() {
 	out := flag.String("out", "", "result json path")
 	budget := flag.Int("budget", 0, "soft time budget in seconds for open-ended generators (0 = tier default)")
 	list := flag.Bool("list", false, "list suites")
+	dumpScan := flag.String("dump-scan", "", "print the static scan of the repository: writes | escapes | instance-writes")
 	flag.Parse()
+	if *dumpScan != "" {
+		sc, err := c18ScanRepo(c06RepoDir())
+		if err != nil {
+			fmt.Fprintln(os.Stderr, err)
+			os.Exit(2)
+		}
+		xs := sc.Writes
+		switch *dumpScan {
+		case "escapes":
+			xs = sc.Escapes
+		case "instance-writes":
+			xs = sc.InstWrites
+		}
+		fmt.Println(strings.Join(xs, "\n"))
+		return
+	}
 	if *list {
 		var ks []string
 		for k := range suites {
